@@ -42,6 +42,8 @@ var props = map[string]propSpec{
 		Scenarios: []scenarioBudget{{Name: "c18", QuickSec: 40, ThoroughSec: 900}}},
 	"C08": {ID: "C08", Level: "fault_enumeration", Rule: ruleCommon + "; run index mod 4: 0 = burst of 1..64 well-formed requests followed at once by a disconnect, 1 = adversarial server (truncated / corrupted / duplicated / unsolicited / random responses), 2,3 = enumerated mutations of every corpus frame kind (call, ping, stream open/message/close) under each header encoder: every truncation, every single-byte corruption (8 values quick, all 255 thorough) and every upgrade byte 0..255, six per run, each followed by a well-formed probe", Assume: commonAssume,
 		Scenarios: []scenarioBudget{{Name: "c08", QuickSec: 45, ThoroughSec: 1500}}},
+	"C20": {ID: "C20", Level: "exploration", Rule: ruleCommon, Assume: append(append([]string{}, commonAssume...), "goroutine leaks are judged on the simulator's registry of goroutines started by instrumented library code (exact), sockets on simnet's connection table"),
+		Scenarios: []scenarioBudget{{Name: "c20", QuickSec: 40, ThoroughSec: 900}}},
 	"C06": {ID: "C06", Level: "exploration", Rule: ruleCommon, Assume: commonAssume,
 		Scenarios: []scenarioBudget{{Name: "c06", QuickSec: 40, ThoroughSec: 900}}},
 }
